@@ -237,20 +237,94 @@ struct Case {
 struct Plan {
     benign: usize,
     mutants: usize,
+    directed: usize,
     base_cap: usize,
 }
 
+const DIRECTED: usize = 6;
+
 fn plan(tier_quick: bool, items: &[Item]) -> Plan {
-    Plan { benign: items.len(), mutants: if tier_quick { 9000 } else { 300_000 }, base_cap: if tier_quick { 300_000 } else { 1_100_000 } }
+    let dev = std::env::var("VERIF_C10_MUTANTS").ok().and_then(|s| s.parse::<usize>().ok());
+    Plan { benign: items.len(), mutants: dev.unwrap_or(if tier_quick { 7000 } else { 60_000 }), directed: DIRECTED, base_cap: if tier_quick { 300_000 } else { 1_100_000 } }
 }
 
 fn default_store(items: &[Item]) -> std::sync::Arc<Vec<u8>> {
     std::sync::Arc::new(items.iter().find(|i| i.kind == "store").map(|i| i.bytes.clone()).unwrap_or_default())
 }
 
+/// Directed cases: the minimal forms of the findings reported for this property; they run on every
+/// invocation (independent of the seed).
+fn directed_case(items: &[Item], d: usize) -> Option<Case> {
+    use std::sync::Arc;
+    use vmon::jumbf;
+    use vmon::storegen::{self, Edit};
+    let store_item = items.iter().find(|i| i.name == "store:tiny.png")?;
+    let store = &store_item.bytes;
+    let root = jumbf::parse_store(store)?;
+    let mut all = Vec::new();
+    root.walk(&mut all);
+    // the cbor box of the org.verif.test assertion
+    let target = all.iter().find(|b| &b.typ == b"cbor" && b.path.contains("org.verif.test"))?;
+    let claim = all.iter().find(|b| &b.typ == b"cbor" && b.path.contains("c2pa.claim"))?;
+    let assertion = all.iter().find(|b| &b.typ == b"jumb" && b.path.ends_with("org.verif.test"))?;
+    let mk = |name: &str, bytes: Vec<u8>| -> Option<Case> {
+        let b = Arc::new(bytes);
+        Some(Case { base: "store:tiny.png".into(), base_fmt: "c2pa".into(), kind: format!("{name}+directed"), evals: vec![Eval { ep: Ep::WithStream, hint: "c2pa".into(), bytes: b, store: None }] })
+    };
+    match d {
+        0 => {
+            let mut deep = vec![0x81u8; 200_000];
+            deep.push(0);
+            mk("store:cbor-deep", storegen::apply_edit(store, &root, claim.start, &Edit::Replace(jumbf::make_box(b"cbor", &deep))))
+        }
+        1 => {
+            // first text key of the assertion map declared 0xFFFFFFFF bytes long (same length, in place)
+            let mut v = store.clone();
+            let at = target.payload_start() + 1;
+            if v.get(at).map(|b| b >> 5) != Some(3) || at + 5 > target.end() {
+                return None;
+            }
+            v[at] = 0x7A;
+            v[at + 1..at + 5].copy_from_slice(&[0xFF; 4]);
+            mk("store:cbor-head", v)
+        }
+        2 => mk("store:cbor-huge-len", storegen::apply_edit(store, &root, claim.start, &Edit::Replace(jumbf::make_box(b"cbor", &[0x9A, 0x02, 0xFA, 0xF0, 0x80, 1, 2, 3])))),
+        3 => {
+            let mut rep = Vec::new();
+            for _ in 0..45_000 {
+                rep.extend_from_slice(&store[assertion.start..assertion.end()]);
+            }
+            mk("store:box-dup", storegen::apply_edit(store, &root, assertion.start, &Edit::InsertAfter(rep)))
+        }
+        4 | 5 => {
+            let mp3 = items.iter().find(|i| i.name == "tiny.mp3")?;
+            let mut v = mp3.bytes.clone();
+            if v.len() < 20 || &v[..3] != b"ID3" {
+                return None;
+            }
+            // first frame header at 10: id(4) size(4) flags(2)
+            let size: [u8; 4] = if d == 4 { [0x4E, 0x03, 0x00, 0x00] } else { [0xFF, 0xFF, 0xFF, 0x06] };
+            v[14..18].copy_from_slice(&size);
+            Some(Case { base: "tiny.mp3".into(), base_fmt: "mp3".into(), kind: "elem-header+directed".into(), evals: vec![Eval { ep: Ep::WithStream, hint: "mp3".into(), bytes: Arc::new(v), store: None }] })
+        }
+        _ => None,
+    }
+}
+
+/// `make_case` on a thread with a very large stack: re-embedding a deeply nested store drives the
+/// SDK *writer*, which recurses without bound (reported under the read entry points, not here).
+fn make_case_safe(items: &[Item], seed: u64, idx: usize, pl: &Plan) -> Option<Case> {
+    std::thread::scope(|s| {
+        std::thread::Builder::new().stack_size(3 << 30).spawn_scoped(s, || std::panic::catch_unwind(std::panic::AssertUnwindSafe(|| make_case(items, seed, idx, pl))).ok().flatten()).ok()?.join().ok().flatten()
+    })
+}
+
 /// Deterministic case construction from (corpus, seed, index).
 fn make_case(items: &[Item], seed: u64, idx: usize, pl: &Plan) -> Option<Case> {
     use std::sync::Arc;
+    if idx >= pl.benign + pl.mutants {
+        return directed_case(items, idx - pl.benign - pl.mutants);
+    }
     let dstore = default_store(items);
     if idx < pl.benign {
         // benign: the item under every entry point and every hint family
@@ -504,13 +578,12 @@ fn child_main(args: &[String]) -> ! {
     let mut out = std::fs::OpenOptions::new().create(true).append(true).open(&out_path).expect("out");
     let prog = format!("{out_path}.progress");
     for idx in idxs {
-        let case = std::panic::catch_unwind(|| make_case(&items, seed, idx, &pl));
-        let case = match case {
-            Ok(Some(c)) => c,
-            Ok(None) => continue,
-            Err(_) => {
+        let _ = std::fs::write(&prog, format!("{idx} gen"));
+        let case = match make_case_safe(&items, seed, idx, &pl) {
+            Some(c) => c,
+            None => {
                 let _ = PANIC_INFO.with(|x| x.borrow_mut().take());
-                let _ = writeln!(out, "{}", json!({"i": idx, "harness": "generator-panic"}));
+                let _ = writeln!(out, "{}", json!({"i": idx, "harness": "no-case"}));
                 continue;
             }
         };
@@ -537,6 +610,25 @@ struct ChildRun {
     /// (case index, eval index, classification, stderr tail)
     crashes: Vec<(usize, usize, String, String)>,
     stalls: Vec<(usize, usize)>,
+    /// killed after CPU_KILL_S seconds of measured CPU time inside one evaluation
+    cpu_hogs: Vec<(usize, usize)>,
+    /// the child died / stalled while *generating* a case (harness side): inconclusive
+    gen_failures: Vec<(usize, String)>,
+}
+
+/// CPU budget is 20 s; the child is killed (and the case counted) at 25 s of measured CPU time.
+const CPU_KILL_S: f64 = 25.0;
+
+/// user+system CPU seconds of process `pid` (all threads) from /proc.
+fn proc_cpu_s(pid: u32) -> f64 {
+    let Ok(s) = std::fs::read_to_string(format!("/proc/{pid}/stat")) else { return 0.0 };
+    let Some(p) = s.rfind(')') else { return 0.0 };
+    let f: Vec<&str> = s[p + 1..].split_whitespace().collect();
+    // after the command: state is f[0]; utime = field 14 overall -> f[11], stime -> f[12]
+    let ut: f64 = f.get(11).and_then(|x| x.parse().ok()).unwrap_or(0.0);
+    let st: f64 = f.get(12).and_then(|x| x.parse().ok()).unwrap_or(0.0);
+    let hz = unsafe { libc::sysconf(libc::_SC_CLK_TCK) } as f64;
+    (ut + st) / if hz > 0.0 { hz } else { 100.0 }
 }
 
 fn classify_exit(status: &std::process::ExitStatus, stderr: &str) -> String {
@@ -559,7 +651,7 @@ fn classify_exit(status: &std::process::ExitStatus, stderr: &str) -> String {
 
 /// Runs `exe --child` over `idxs`, restarting after crashes/stalls; returns everything observed.
 fn run_shard(exe: &Path, corpus: &Path, scratch: &Path, tag: &str, idxs: &[usize], seed: u64, tier: &str, stall_s: u64, cpu_limit: Option<u64>) -> ChildRun {
-    let mut res = ChildRun { lines: Vec::new(), crashes: Vec::new(), stalls: Vec::new() };
+    let mut res = ChildRun { lines: Vec::new(), crashes: Vec::new(), stalls: Vec::new(), cpu_hogs: Vec::new(), gen_failures: Vec::new() };
     let mut remaining: Vec<usize> = idxs.to_vec();
     let mut round = 0;
     while !remaining.is_empty() && round < 200 {
@@ -580,6 +672,10 @@ fn run_shard(exe: &Path, corpus: &Path, scratch: &Path, tag: &str, idxs: &[usize
         let mut last = String::new();
         let mut since = std::time::Instant::now();
         let mut stalled = false;
+        let mut cpu_hog = false;
+        let mut cpu_at_change = 0f64;
+        let mut cpu_at_wall = 0f64;
+        let mut since_first = std::time::Instant::now();
         let status = loop {
             match child.try_wait() {
                 Ok(Some(st)) => break Some(st),
@@ -591,11 +687,27 @@ fn run_shard(exe: &Path, corpus: &Path, scratch: &Path, tag: &str, idxs: &[usize
             if cur != last {
                 last = cur;
                 since = std::time::Instant::now();
-            } else if since.elapsed().as_secs() > stall_s {
+                cpu_at_change = proc_cpu_s(child.id());
+                cpu_at_wall = cpu_at_change;
+                since_first = std::time::Instant::now();
+            } else if proc_cpu_s(child.id()) - cpu_at_change > CPU_KILL_S {
+                // measured CPU time of the child inside one evaluation (load-independent)
                 let _ = child.kill();
                 let _ = child.wait();
-                stalled = true;
+                cpu_hog = true;
                 break None;
+            } else if since.elapsed().as_secs() > stall_s {
+                // no progress marker for a while: only a stall if the child is not burning CPU either
+                // (a busy child is left to reach the CPU limit, however long that takes under load)
+                let now = proc_cpu_s(child.id());
+                if now - cpu_at_wall < 0.5 || since_first.elapsed().as_secs() > 1800 {
+                    let _ = child.kill();
+                    let _ = child.wait();
+                    stalled = true;
+                    break None;
+                }
+                cpu_at_wall = now;
+                since = std::time::Instant::now();
             }
         };
         let text = std::fs::read_to_string(&out).unwrap_or_default();
@@ -611,9 +723,15 @@ fn run_shard(exe: &Path, corpus: &Path, scratch: &Path, tag: &str, idxs: &[usize
         }
         // where did it stop?
         let mut it = cur.split_whitespace();
-        let (ci, ek) = (it.next().and_then(|x| x.parse::<usize>().ok()), it.next().and_then(|x| x.parse::<usize>().ok()).unwrap_or(0));
+        let (ci, ekt) = (it.next().and_then(|x| x.parse::<usize>().ok()), it.next().unwrap_or("0").to_string());
         let Some(ci) = ci else { break };
-        if stalled {
+        let in_gen = ekt == "gen";
+        let ek = ekt.parse::<usize>().unwrap_or(0);
+        if in_gen {
+            res.gen_failures.push((ci, if stalled { "stall".into() } else if cpu_hog { "cpu".into() } else { status.map(|s| classify_exit(&s, &std::fs::read_to_string(&err).unwrap_or_default())).unwrap_or_default() }));
+        } else if cpu_hog {
+            res.cpu_hogs.push((ci, ek));
+        } else if stalled {
             res.stalls.push((ci, ek));
         } else if let Some(st) = status {
             let e = std::fs::read_to_string(&err).unwrap_or_default();
@@ -627,6 +745,32 @@ fn run_shard(exe: &Path, corpus: &Path, scratch: &Path, tag: &str, idxs: &[usize
         };
     }
     res
+}
+
+/// Signature parts.  A defect must map to few signatures, so the entry point and the hint are
+/// reduced to what determines the code that runs: store-level mutants reach the JUMBF/CBOR/COSE
+/// parsers through every entry point ("store-parse|any"); container-level mutants reach the handler
+/// chosen by content sniffing (Reader::with_stream: the base format's family) or by the hint alone
+/// (all other entry points).  The entry point and the literal hint stay in the witness.
+fn cause(_fmt: &str, kind: &str) -> String {
+    kind.split('+').next().unwrap_or(kind).to_string()
+}
+fn fmt_family(fmt: &str) -> &'static str {
+    match hint_family(fmt) {
+        "other" => "nomagic",
+        f => f,
+    }
+}
+fn sig_prefix(ep: &str, hf: &str, fmt: &str, kind: &str) -> String {
+    if kind.starts_with("store:") {
+        "store-parse|any".to_string()
+    } else if ep == "Reader::with_stream" && fmt_family(fmt) != "nomagic" && fmt_family(fmt) != "svg" && fmt_family(fmt) != "c2pa" {
+        format!("container-parse|{}", fmt_family(fmt))
+    } else if ep == "Builder::with_archive" {
+        "container-parse|archive".to_string()
+    } else {
+        format!("container-parse|{hf}")
+    }
 }
 
 fn sanitize(s: &str) -> String {
@@ -645,7 +789,7 @@ fn main() {
         "panics are caught inside the child (catch_unwind); aborts, signals and stack overflows are classified from the child's wait status and stderr; each call runs on a thread with Rust's default 2 MiB thread stack".into(),
         "memory: process-wide counting allocator, one case at a time per child; budget 8*len + 1 MiB (decompression limit set to 1 MiB) + 16 MiB, len = stream bytes + manifest-data bytes; the input copy held by the harness is outside the window".into(),
         "work: bytes read <= 64*len + 1 MiB and seeks <= 16*len + 10^4 on the caller-side stream".into(),
-        "CPU: thread CPU time of the call; > 20 s for inputs <= 1 MiB only counts after a solo re-run under RLIMIT_CPU; a stalled child (no progress for the stall limit) is inconclusive unless that re-run confirms".into(),
+        "CPU: measured CPU time only (thread clock inside the child, or user+system time of the child from /proc while it sits in one evaluation; the evaluation is stopped at 25 s CPU against a 20 s budget) for inputs <= 1 MiB; a wall-clock stall without CPU consumption is inconclusive".into(),
         "re-embedding a hostile store into an asset uses the SDK writer as a driver only".into(),
     ];
     let quick = run.quick();
@@ -675,7 +819,7 @@ fn main() {
     write_corpus(&corpus_dir, &items);
     let pl = plan(quick, &items);
     run.set("corpus", json!({"items": items.len(), "fixtures": items.iter().filter(|i| i.kind == "fixture").count(), "bytes": items.iter().map(|i| i.bytes.len()).sum::<usize>()}));
-    let total = pl.benign + pl.mutants;
+    let total = pl.benign + pl.mutants + pl.directed;
     let nw = par::workers().max(1);
     // strided shards; benign cases first in every shard
     let shards: Vec<Vec<usize>> = (0..nw).map(|w| (0..total).filter(|i| i % nw == w).collect()).collect();
@@ -689,7 +833,7 @@ fn main() {
     let retain = |sig: &str, idx: usize, k: usize| -> (String, Value) {
         let path = replay_dir.join(format!("{}.bin", sanitize(sig)));
         let mut meta = json!({});
-        if let Some(c) = make_case(&items, seed0, idx, &pl) {
+        if let Some(c) = make_case_safe(&items, seed0, idx, &pl) {
             if let Some(e) = c.evals.get(k) {
                 if !path.exists() {
                     let _ = std::fs::write(&path, &*e.bytes);
@@ -736,7 +880,7 @@ fn main() {
             if out == "panic" {
                 let frame = l["frame"].as_str().unwrap_or("unknown");
                 let file = loc_file(l["loc"].as_str().unwrap_or(""));
-                let sig = format!("{ep}|{hf}|panic|{}@{}", frame, file);
+                let sig = format!("{}|panic|{}@{}", if kind.starts_with("store:") { "store-parse|any" } else { "container-parse|any" }, frame, file);
                 let (path, meta) = retain(&sig, idx, k);
                 interesting.push(idx);
                 run.violation(&sig, &format!("panic '{}' at {} (top in-repo frame {}) — {} under hint {:?}, base {} mutator {}", l["panic"].as_str().unwrap_or(""), l["loc"].as_str().unwrap_or(""), frame, ep, hint, l["base"].as_str().unwrap_or(""), kind), json!({"input": path, "case": meta, "hint": hint, "observed": w}));
@@ -764,7 +908,7 @@ fn main() {
             let over = [("alloc-budget", peak, alloc_budget(len)), ("read-budget", rd, read_budget(len)), ("seek-budget", seeks, seek_budget(len))];
             for (cls, val, bud) in over {
                 if val > bud {
-                    let sig = format!("{ep}|{hf}|{cls}|{fmt}:{mk}");
+                    let sig = format!("{}|{cls}|{}", sig_prefix(ep, hf, fmt, kind), cause(fmt, kind));
                     let (path, meta) = retain(&sig, idx, k);
                     interesting.push(idx);
                     run.violation(&sig, &format!("{cls}: {val} > {bud} for a {len}-byte input — {ep} under hint {hint:?}, base {} mutator {kind} (largest single request {})", l["base"].as_str().unwrap_or(""), l["largest"].as_u64().unwrap_or(0)), json!({"input": path, "case": meta, "hint": hint, "observed": w}));
@@ -780,7 +924,7 @@ fn main() {
             run.sample(&format!("{}:{}", if benign { "benign" } else { "mutant" }, mk), 1, json!({"index": idx, "base": l["base"], "ep": ep, "hint": hint, "out": out, "peak": peak, "rd": rd, "seeks": seeks, "cpu_ms": l["cpu_ms"], "len": len}));
         }
         for (ci, ek, class, tail) in &r.crashes {
-            let c = make_case(&items, run.seed, *ci, &pl);
+            let c = make_case_safe(&items, run.seed, *ci, &pl);
             let (ep, hint, base, kind, fmt) = c.as_ref().and_then(|c| c.evals.get(*ek).map(|e| (e.ep.name(), e.hint.clone(), c.base.clone(), c.kind.clone(), c.base_fmt.clone()))).unwrap_or(("unknown", String::new(), String::new(), String::new(), String::new()));
             let hf = if hint.is_empty() { "none" } else { hint_family(&hint) };
             if class == "killed" || class.starts_with("exit-") {
@@ -788,35 +932,38 @@ fn main() {
                 continue;
             }
             let mk = kind.split('+').next().unwrap_or(&kind).to_string();
-            let sig = format!("{ep}|{hf}|{class}|{fmt}:{mk}");
+            let _ = &mk;
+            let sig = format!("{}|{class}|{}", sig_prefix(ep, hf, &fmt, &kind), cause(&fmt, &kind));
             let (path, meta) = retain(&sig, *ci, *ek);
             interesting.push(*ci);
             run.violation(&sig, &format!("child process died ({class}) in {ep} under hint {hint:?}, base {base} mutator {kind}; stderr tail: {}", tail.replace('\n', " | ")), json!({"input": path, "case": meta, "hint": hint, "index": ci, "eval": ek}));
         }
         for (ci, ek) in &r.stalls {
+            run.inconclusive(format!("child made no progress for {stall_s} s of wall-clock at case {ci}/{ek} without reaching the CPU limit — not judged"));
+        }
+        for (ci, why) in &r.gen_failures {
+            run.inconclusive(format!("case {ci} could not be generated (child {why} inside the harness-side generator / SDK writer used as a driver) — skipped"));
+        }
+        for (ci, ek) in &r.cpu_hogs {
             cpu_candidates.push((*ci, *ek));
         }
     }
-    // ---------------- CPU candidates: solo re-run under RLIMIT_CPU
+    // ---------------- CPU: measured CPU time (thread clock in the child, or /proc of the killed child)
     cpu_candidates.sort();
     cpu_candidates.dedup();
-    for (ci, ek) in cpu_candidates.iter().take(8) {
-        let r = run_shard(&exe, &corpus_dir, scratch.path(), &format!("cpu{ci}"), &[*ci], run.seed, tier, 120, Some(30));
-        let c = make_case(&items, run.seed, *ci, &pl);
-        let (ep, hint, base, kind, fmt, len) = c.as_ref().and_then(|c| c.evals.get(*ek).map(|e| (e.ep.name(), e.hint.clone(), c.base.clone(), c.kind.clone(), c.base_fmt.clone(), e.bytes.len()))).unwrap_or(("unknown", String::new(), String::new(), String::new(), String::new(), 0));
-        let confirmed = r.crashes.iter().any(|c| c.2 == "cpu-limit") || r.lines.iter().any(|l| l["cpu_ms"].as_u64().unwrap_or(0) > 20_000);
-        if confirmed && len <= (1 << 20) {
+    for (ci, ek) in cpu_candidates.iter() {
+        let c = make_case_safe(&items, run.seed, *ci, &pl);
+        let (ep, hint, base, kind, fmt, len) = c.as_ref().and_then(|c| c.evals.get(*ek).map(|e| (e.ep.name(), e.hint.clone(), c.base.clone(), c.kind.clone(), c.base_fmt.clone(), e.bytes.len() + e.store.as_ref().map(|s| s.len()).unwrap_or(0)))).unwrap_or(("unknown", String::new(), String::new(), String::new(), String::new(), 0));
+        if len <= (1 << 20) {
             let hf = if hint.is_empty() { "none" } else { hint_family(&hint) };
-            let mk = kind.split('+').next().unwrap_or(&kind).to_string();
-            let sig = format!("{ep}|{hf}|cpu-budget|{fmt}:{mk}");
+            let sig = format!("{}|cpu-budget|{}", sig_prefix(ep, hf, &fmt, &kind), cause(&fmt, &kind));
             let (path, meta) = retain(&sig, *ci, *ek);
-            run.violation(&sig, &format!("more than 20 s of CPU for a {len}-byte input (confirmed by a solo re-run under RLIMIT_CPU) — {ep} hint {hint:?}, base {base} mutator {kind}"), json!({"input": path, "case": meta, "hint": hint, "index": ci, "eval": ek}));
+            interesting.push(*ci);
+            run.nontrivial(format!("{ep}|{hf}|{fmt}|{}|cpu-budget", kind.split('+').next().unwrap_or(&kind)));
+            run.violation(&sig, &format!("more than 20 s of measured CPU time for a {len}-byte input (evaluation stopped at {CPU_KILL_S} s CPU) — {ep} hint {hint:?}, base {base} mutator {kind}"), json!({"input": path, "case": meta, "hint": hint, "index": ci, "eval": ek}));
         } else {
-            run.inconclusive(format!("case {ci}/{ek} ({ep}, base {base}, mutator {kind}) stalled or was slow under load but finished a solo re-run within the CPU budget"));
+            run.count("slow_large_inputs(unjudged)", 1);
         }
-    }
-    if cpu_candidates.len() > 8 {
-        run.inconclusive(format!("{} further slow/stalled cases not re-run", cpu_candidates.len() - 8));
     }
     // ---------------- calibration
     run.set("benign_alloc_ratio_max", json!({"ratio": benign_ratio_max, "where": benign_worst}));
@@ -839,7 +986,10 @@ fn main() {
         // subset: everything interesting + a seeded sample of mutants + all benign cases of small items
         let mut sub: Vec<usize> = interesting.clone();
         let mut rng = Rng::new(run.seed, "c10-dbg");
-        let n = run.tier.pick(2500usize, 40_000usize);
+        let n = run.tier.pick(1200usize, 8_000usize);
+        for d in 0..pl.directed {
+            sub.push(pl.benign + pl.mutants + d);
+        }
         for _ in 0..n {
             sub.push(pl.benign + rng.usize(pl.mutants));
         }
@@ -869,7 +1019,7 @@ fn main() {
                     let hint = l["hint"].as_str().unwrap_or("");
                     let hf = if hint.is_empty() { "none" } else { hint_family(hint) };
                     let frame = l["frame"].as_str().unwrap_or("unknown");
-                    let sig = format!("{}|{hf}|panic-dbg|{}@{}", l["ep"].as_str().unwrap_or(""), frame, loc_file(l["loc"].as_str().unwrap_or("")));
+                    let sig = format!("{}|panic-dbg|{}@{}", if l["kind"].as_str().unwrap_or("").starts_with("store:") { "store-parse|any" } else { "container-parse|any" }, frame, loc_file(l["loc"].as_str().unwrap_or("")));
                     let (path, meta) = retain(&sig, idx, k);
                     run.nontrivial(format!("dbg|{}|{hf}|panic", l["ep"].as_str().unwrap_or("")));
                     run.violation(&sig, &format!("[dbg profile: overflow checks + debug assertions] panic '{}' at {} (top in-repo frame {}) — {} under hint {hint:?}, base {} mutator {}", l["panic"].as_str().unwrap_or(""), l["loc"].as_str().unwrap_or(""), frame, l["ep"].as_str().unwrap_or(""), l["base"].as_str().unwrap_or(""), l["kind"].as_str().unwrap_or("")), json!({"input": path, "case": meta, "hint": hint, "observed": l, "engine": "dbg"}));
@@ -880,10 +1030,10 @@ fn main() {
                     run.inconclusive(format!("dbg child ended with {class} at case {ci}/{ek}"));
                     continue;
                 }
-                let c = make_case(&items, run.seed, *ci, &pl);
+                let c = make_case_safe(&items, run.seed, *ci, &pl);
                 let (ep, hint, kind, fmt) = c.as_ref().and_then(|c| c.evals.get(*ek).map(|e| (e.ep.name(), e.hint.clone(), c.kind.clone(), c.base_fmt.clone()))).unwrap_or(("unknown", String::new(), String::new(), String::new()));
                 let hf = if hint.is_empty() { "none" } else { hint_family(&hint) };
-                let sig = format!("{ep}|{hf}|{class}-dbg|{fmt}:{}", kind.split('+').next().unwrap_or(&kind));
+                let sig = format!("{}|{class}|{}", sig_prefix(ep, hf, &fmt, &kind), cause(&fmt, &kind));
                 let (path, meta) = retain(&sig, *ci, *ek);
                 run.violation(&sig, &format!("[dbg profile] child process died ({class}) in {ep} under hint {hint:?}; stderr tail: {}", tail.replace('\n', " | ")), json!({"input": path, "case": meta, "hint": hint, "index": ci, "eval": ek, "engine": "dbg"}));
             }
@@ -903,6 +1053,7 @@ fn main() {
     } else {
         run_fuzz(&mut run, &fuzz_dir, &corpus_dir, &items);
     }
+    let _ = std::fs::remove_dir_all(scratch.path());
     run.finish(200);
 }
 
